@@ -153,9 +153,12 @@ def naming_content(lang, which) -> bytes:
     if which == "wellformed":
         return good.encode()
     if which == "long":
-        fn = harness.py_function("big", 62) if lang == "Python" else None
-        if fn is None:
-            spec = {"lang": lang, "items": [{"k": "func", "name": "big", "style": "same", "body": [{"k": "simple"}] * 61}]}
+        # several findings, two pairs of them with EQUAL lengths (listing code compares findings with each other)
+        sizes = [("big", 62), ("mid", 31), ("mid_too", 31), ("big_too", 62)]
+        if lang == "Python":
+            fn = "\n".join(harness.py_function(n, L) for n, L in sizes)
+        else:
+            spec = {"lang": lang, "items": [{"k": "func", "name": n, "style": "same", "body": [{"k": "simple"}] * (L - 1)} for n, L in sizes]}
             fn = canon.render(spec)[0]
         return fn.encode()
     if which == "truncated":
